@@ -344,6 +344,7 @@ func runC06(c *Ctx) {
 		ruleValidationLoops(c, p, "C06.validate")
 		ruleConfigParsed(c, p, "C06.config")
 		ruleConfiguredFlag(c, p, "C06.configured")
+		ruleInferCache(c, p, "C06.infer-cache")
 		c.R.Rule("C06.errors", "E6 (as C07.errors): every read error on the decode side reaches only failure exits - a swallowed error turns hostile input into a silently wrong (internally inconsistent) result")
 		nE := runErrDisc(c, p, p.Funcs(), errDiscOpts{Rule: "C06.errors", Class: readerClass(p), Exempt: isDoReceiverPacket})
 		c.R.Floor("C06.errors", cfg.Name, nE, 190)
@@ -1479,7 +1480,7 @@ func foldCondAt(cond, v ssa.Value, k int64) (bool, bool) {
 // ---- C06.lastindex
 // ruleLastIndex: x[n-1] only where n >= 1 is established.
 func ruleLastIndex(c *Ctx, p *core.Program, rule string) {
-	c.R.Rule(rule, "in the column decoders (DecodeColumn and the library functions they call), an element access x[n-1] - n being the row-count parameter or a len() - is reachable only through a test that establishes n >= 1 (n == 0 -> return, n > 0, n != 0, n >= 1, len(x) > 0 ... on the same quantity): a nested Array or Map value column is legally decoded with zero rows when every outer row is empty, and an unguarded last-element access then panics with index -1")
+	c.R.Rule(rule, "in the column decoders (DecodeColumn and the library functions they call), an element access x[n-1] - n being the row-count parameter or a len() - or x[len(x)-K] on a buffer read as rows*K bytes is reachable only through a test that establishes n >= 1 (n == 0 -> return, n > 0, n != 0, n >= 1, len(x) > 0 ... on the same quantity): a nested Array or Map value column is legally decoded with zero rows when every outer row is empty, and an unguarded last-element access then panics with index -1")
 	cfg := p.Cfg.Name
 	n := 0
 	seenFn := map[*ssa.Function]bool{}
@@ -1526,7 +1527,7 @@ func ruleLastIndex(c *Ctx, p *core.Program, rule string) {
 					continue
 				}
 				kc, okc := core.ConstInt(sub.Y)
-				if !okc || kc != 1 {
+				if !okc || kc < 1 {
 					continue
 				}
 				q := stripConv(sub.X)
@@ -1534,7 +1535,28 @@ func ruleLastIndex(c *Ctx, p *core.Program, rule string) {
 				if cl, ok := q.(*ssa.Call); ok {
 					if bi, ok := cl.Call.Value.(*ssa.Builtin); ok && bi.Name() == "len" {
 						isLen = true
+						// x[len(x)-K] with x = a read of rows*c bytes, c >= K: the quantity that must be >= 1 is rows
+						if kc > 1 {
+							ok2 := false
+							if ex, isEx := cl.Call.Args[0].(*ssa.Extract); isEx {
+								if rc, isCall := ex.Tuple.(*ssa.Call); isCall && len(rc.Call.Args) > 0 {
+									if mul, isMul := stripConv(rc.Call.Args[len(rc.Call.Args)-1]).(*ssa.BinOp); isMul && mul.Op == token.MUL {
+										if cf, okf := core.ConstInt(mul.Y); okf && cf >= kc {
+											q, ok2 = stripConv(mul.X), true
+										} else if cf, okf := core.ConstInt(mul.X); okf && cf >= kc {
+											q, ok2 = stripConv(mul.Y), true
+										}
+									}
+								}
+							}
+							if !ok2 {
+								continue // some other offset arithmetic: not this rule
+							}
+						}
 					}
+				}
+				if kc > 1 && !isLen {
+					continue
 				}
 				if _, isParam := q.(*ssa.Parameter); !isParam && !isLen {
 					continue // i-1 of a loop index etc.: not this rule
@@ -1880,4 +1902,136 @@ func ruleConfiguredFlag(c *Ctx, p *core.Program, rule string) {
 	if n == 0 {
 		c.R.Unk(rule, "population", cfg, "", "no flag-guarded panic found (expected ColDateTime64.PrecisionSet)")
 	}
+}
+
+// ---- C06.infer-cache
+// inferCacheLeaks: fn is an Infer-like method with a shortcut `param == recv.F -> return nil`
+// (F is the cache key). It returns the exits that can be reached after a store to another receiver
+// field without a store to F in between: the key then vouches for state it no longer describes.
+func inferCacheLeaks(fn *ssa.Function) (key string, leaks []core.Witness) {
+	if fn.Blocks == nil || len(fn.Params) < 2 || fn.Signature.Recv() == nil {
+		return "", nil
+	}
+	recv, par := fn.Params[0], fn.Params[1]
+	recvField := func(v ssa.Value) string {
+		u, ok := v.(*ssa.UnOp)
+		if !ok || u.Op != token.MUL {
+			return ""
+		}
+		fa, ok := u.X.(*ssa.FieldAddr)
+		if !ok || fa.X != ssa.Value(recv) {
+			return ""
+		}
+		return fieldNameOnly(fa.X.Type(), fa.Field)
+	}
+	// the shortcut: an If on `par == recv.F` whose equal edge leads straight to a success return
+	for _, b := range fn.Blocks {
+		ifi, ok := b.Instrs[len(b.Instrs)-1].(*ssa.If)
+		if !ok {
+			continue
+		}
+		bo, ok := ifi.Cond.(*ssa.BinOp)
+		if !ok || (bo.Op != token.EQL && bo.Op != token.NEQ) {
+			continue
+		}
+		f := ""
+		switch {
+		case bo.X == ssa.Value(par):
+			f = recvField(bo.Y)
+		case bo.Y == ssa.Value(par):
+			f = recvField(bo.X)
+		}
+		if f == "" {
+			continue
+		}
+		eq := 0
+		if bo.Op == token.NEQ {
+			eq = 1
+		}
+		tb := b.Succs[eq]
+		if ret, ok := tb.Instrs[len(tb.Instrs)-1].(*ssa.Return); ok && defaultSuccess(fn, ret) {
+			key = f
+		}
+	}
+	if key == "" {
+		return "", nil
+	}
+	storesKey := func(in ssa.Instruction) bool {
+		s, ok := in.(*ssa.Store)
+		if !ok {
+			return false
+		}
+		fa, ok := s.Addr.(*ssa.FieldAddr)
+		return ok && fa.X == ssa.Value(recv) && fieldNameOnly(fa.X.Type(), fa.Field) == key
+	}
+	for _, b := range fn.Blocks {
+		for _, in := range b.Instrs {
+			mut := false
+			switch x := in.(type) {
+			case *ssa.Store:
+				if fa, ok := x.Addr.(*ssa.FieldAddr); ok && fa.X == ssa.Value(recv) && fieldNameOnly(fa.X.Type(), fa.Field) != key {
+					mut = true
+				}
+			case *ssa.Call:
+				// a method of the same receiver that writes its fields (parse)
+				if sf := core.StaticFn(x); sf != nil && sf.Blocks != nil && len(x.Call.Args) > 0 && x.Call.Args[0] == ssa.Value(recv) {
+					for _, sb := range sf.Blocks {
+						for _, si := range sb.Instrs {
+							switch y := si.(type) {
+							case *ssa.Store:
+								if fa, ok := y.Addr.(*ssa.FieldAddr); ok && fa.X == ssa.Value(sf.Params[0]) {
+									mut = true
+								}
+							case *ssa.MapUpdate:
+								mut = true
+							}
+						}
+					}
+				}
+			}
+			if !mut {
+				continue
+			}
+			// a key invalidated (set to a constant) before the change vouches for nothing
+			invalidated := func(x ssa.Instruction) bool {
+				if !storesKey(x) {
+					return false
+				}
+				_, isConst := x.(*ssa.Store).Val.(*ssa.Const)
+				return isConst
+			}
+			m := in
+			if len(core.ReachAvoiding(core.Entry(fn), func(x ssa.Instruction) bool { return x == m }, invalidated, nil)) == 0 {
+				continue
+			}
+			leaks = append(leaks, core.ReachAvoiding(core.PointOf(in), core.IsExit, storesKey, nil)...)
+		}
+	}
+	return key, leaks
+}
+
+func ruleInferCache(c *Ctx, p *core.Program, rule string) {
+	c.R.Rule(rule, "an Infer method that skips its work when the requested type equals a remembered one (`t == recv.F -> return nil`) keeps that key truthful: after any write to other receiver state (directly or through a method of the receiver) no exit - success or failure - is reachable without storing the key (unless the key was reset to a constant before the change); otherwise a rejected type leaves the column half re-configured while the key still matches the earlier type, the next block of that type skips inference and is decoded with the wrong width (0 rows reported, Row panics)")
+	cfg := p.Cfg.Name
+	n := 0
+	for _, fn := range p.Funcs() {
+		if pkgOf(fn) == nil || pkgOf(fn).Path() != core.PkgProto || fn.Name() != "Infer" {
+			continue
+		}
+		if nm := core.RecvNamed2(fn); nm != nil && strings.HasPrefix(nm.Obj().Name(), "verifFixture") {
+			continue
+		}
+		key, leaks := inferCacheLeaks(fn)
+		if key == "" {
+			continue
+		}
+		n++
+		k := core.FuncName(fn) + "/key-" + key
+		if len(leaks) > 0 {
+			c.R.Bad(rule, k, cfg, p.Pos(leaks[0].At.Pos()), "Infer can return after changing the column's state without updating the remembered type "+key+": a later request for the remembered type is skipped although the state no longer matches it", p.TrailString(leaks[0])...)
+		} else {
+			c.R.Ok(rule, k, cfg, p.Pos(fn.Pos()), "every exit after a state change stores the key")
+		}
+	}
+	c.R.Count("Infer methods with a same-type shortcut["+cfg+"]", n)
 }
